@@ -5,8 +5,8 @@ import UmProofs.BrokerScalePlanC
 `quota m i` = the number of slots master `i` of `m` owns in a balanced cluster
 (`SLOT_NUM / m`, plus one for the first `SLOT_NUM % m` masters).
 -/
-namespace Um.Broker
-open Um Um.Slots
+namespace Um.Broker.Scale
+open Um Um.Slots Um.Broker
 
 def quota (m i : Nat) : Nat := SLOT_NUM / m + (if i < SLOT_NUM % m then 1 else 0)
 
@@ -101,6 +101,9 @@ def FullChunks (m : Nat) : List Chunk → Nat → Prop
 /-- slot-less chunks -/
 def EmptyChunks (l : List Chunk) : Prop := ∀ ch ∈ l, ch.stable0 = none ∧ ch.stable1 = none
 
+/-- chunks without migration entries -/
+def NoMigs (l : List Chunk) : Prop := ∀ ch ∈ l, ch.mig0 = [] ∧ ch.mig1 = []
+
 /-- `n` chunks with slots (balanced over `2n` masters) followed by whole slot-less chunks -/
 def BalancedShape (chunks : List Chunk) (n : Nat) : Prop :=
   ∃ A B, chunks = A ++ B ∧ A.length = n ∧ FullChunks (n * 2) A 0 ∧ EmptyChunks B
@@ -110,4 +113,4 @@ of `m = 2n` owns `quota m i` slots, the slot-less halves are whole trailing chun
 def Balanced (cl : Cluster) : Prop :=
   cl.isMigrating = false ∧ ∃ n, 0 < n ∧ BalancedShape cl.chunks n
 
-end Um.Broker
+end Um.Broker.Scale
